@@ -69,8 +69,9 @@ def build(kind, exc_handler, init_out, lsn_out, log, ka=None):
     class Ex:
         def submit(self, fn):
             acts.pending.append((len(acts) - 1, fn))
-        def shutdown(self, wait=True):
-            acts.cur().append("poolshutdown")
+        def shutdown(self, wait=True, *, cancel_futures=False):
+            # the model's `poolShutdown` is the waiting, non-cancelling shutdown; anything else is a different action
+            acts.cur().append("poolshutdown" + ("" if wait else ":nowait") + (":cancel" if cancel_futures else ""))
 
     class Sock:
         def close(self):
